@@ -8,3 +8,9 @@ import DnsVerif.Props.C12
 #print axioms DnsVerif.Props.C12.keyDetermines_of_components
 #print axioms DnsVerif.Props.C12.old_protocol_stale
 #print axioms DnsVerif.Props.C12.cache_key_format_matches
+#print axioms DnsVerif.Props.C12.serve_depends_on_key
+#print axioms DnsVerif.Props.C12.serve_depends_on_key_exact
+#print axioms DnsVerif.Props.C12.weighted_depends_on_key
+#print axioms DnsVerif.Props.C12.keyDetermines_serve
+#print axioms DnsVerif.Props.C12.no_stale_after_reload_serve
+#print axioms DnsVerif.Props.C12.cache_invisible_seq_serve
